@@ -47,7 +47,8 @@ def rw_commute(tree, rel):
 
 
 def rw_addcode(tree, rel):
-    extra = ast.parse("def _pgv_unrelated_helper(value):\n    return value\n").body[0]
+    # annotated so that the pyccel kernels still translate with the extra function
+    extra = ast.parse("def _pgv_unrelated_helper(value: 'float'):\n    return value\n").body[0]
     tree.body.append(extra)
     for st in tree.body:
         if isinstance(st, ast.ClassDef):
@@ -65,7 +66,11 @@ class _Rename(ast.NodeTransformer):
         return node
 
 
-def rw_rename(tree, rel):
+def rw_rename_some(tree, rel):
+    return rw_rename(tree, rel, some=True)
+
+
+def rw_rename(tree, rel, some=False):
     """rename the locals of every function that has no nested scopes: x -> x_rn"""
     for fn in [n for n in ast.walk(tree) if isinstance(n, ast.FunctionDef)]:
         inner = [n for n in ast.walk(fn) if n is not fn and isinstance(n, (ast.FunctionDef, ast.Lambda, ast.ClassDef))]
@@ -84,6 +89,8 @@ def rw_rename(tree, rel):
                 if isinstance(c, ast.Constant) and isinstance(c.value, str):
                     named.add(c.value)
         loc = {n for n in stored if n not in params and n not in named and not n.startswith("_")}
+        if some:
+            loc = {n for n in loc if sum(map(ord, n)) % 2 == 0}
         if not loc:
             continue
         mapping = {n: n + "_rn" for n in loc}
@@ -92,7 +99,8 @@ def rw_rename(tree, rel):
     return tree
 
 
-BENIGN = {"reformat": rw_reformat, "commute-mult": rw_commute, "add-unrelated-code": rw_addcode, "rename-locals": rw_rename}
+BENIGN = {"reformat": rw_reformat, "commute-mult": rw_commute, "add-unrelated-code": rw_addcode, "rename-locals": rw_rename,
+          "rename-some-locals": rw_rename_some}
 
 
 def make_variant(name, dst: Path):
@@ -102,7 +110,7 @@ def make_variant(name, dst: Path):
         p = dst / rel
         if p.is_symlink():
             continue
-        if rel in VARIANT_FILES and name in ("reformat", "commute-mult", "rename-locals", "add-unrelated-code"):
+        if rel in VARIANT_FILES and True:
             # the pythran copies carry their export signatures in comments, which ast.unparse drops
             continue
         src = p.read_text()
